@@ -96,8 +96,19 @@ Definition consistent_outcome (s : nat) : bool :=
 (* Schedule's error follows the steps, never the lifecycle handlers (runs without stop request / timeout) *)
 Definition run_error_ok : bool :=
   if stop_requested || timed_out_run then true else Bool.eqb (d_err x) some_failed_final.
+(* "finished" means completed: a step reported finished ran, and its last attempt succeeded *)
+Fixpoint last_end (i : nat) (tr : list event2) (acc : option bool) : option bool :=
+  match tr with
+  | [] => acc
+  | E2End j ok _ :: t => last_end i t (if j =? i then Some ok else acc)
+  | E2Refused j _ :: t => last_end i t (if j =? i then Some false else acc)
+  | _ :: t => last_end i t acc
+  end.
+Definition finished_ran_ok : bool :=
+  d_dry x || forallb (fun i => negb (fst2 i =? 4) ||
+                               match last_end i (d_trace x) None with Some true => true | _ => false end) (seq 0 nn2).
 Definition mon2_C04 : bool :=
-  no_step_after_handler false (d_trace x) && run_error_ok
+  no_step_after_handler false (d_trace x) && run_error_ok && finished_ran_ok
   && existsb (fun s => handlers_eqb (hstarted (d_trace x)) (filter honb (handler_for_status s ++ [HExit]))
                        && consistent_outcome s) [4; 2; 3].
 
